@@ -63,10 +63,10 @@ func init() {
 func init() {
 	propMeta["C01"] = Meta{
 		Level: "exploration",
-		Rule: "Each evaluation is one seeded simulated signing run: generated access structure (five families incl. non-ideal ones, 2-5 holders, sparse/large ids) with its independent reference predicate, key material from the trusted dealer or from a Gennaro/Canetti DKG run in the same simulated cluster, a qualified quorum drawn from the reference evaluator (minimal, minimal+extra, all holders), a message (empty, 1 byte, 32 bytes, 1 KiB, text), real session setup + real signing runner of the chosen protocol over the simulated network with reordering, duplication, redelivery and foreign injection, 1-2 concurrent signing sessions per key; every quorum member and one outsider aggregate. Non-trivial = at least one non-FIFO delivery or injected fault. Distinct = hash of (workload, configuration class, decision trace).",
+		Rule: "Each evaluation is one seeded simulated signing run: generated access structure (five families incl. non-ideal ones, 2-5 holders, sparse/large ids) with its independent reference predicate, key material from the trusted dealer or from a Gennaro/Canetti DKG run in the same simulated cluster, a qualified quorum drawn from the reference evaluator (minimal, minimal+extra, all holders), a message (empty, 1 byte, 32 bytes, 1 KiB, text), real session setup (a third of the runs: contexts derived with SubContext from one parent session, per party in its own order) + real signing runner of the chosen protocol over the simulated network with reordering, duplication, redelivery and foreign injection, 1-2 concurrent signing sessions per key; every quorum member and one outsider aggregate. Non-trivial = at least one non-FIFO delivery or injected fault. Distinct = hash of (workload, configuration class, decision trace).",
 		Assumptions: []string{"independent verifiers: ECDSA and BIP-340 and plain Schnorr written from their specifications over /verif/ref curve arithmetic, plus crypto/ecdsa (P-256) and crypto/ed25519 where wire-compatible; BLS and Mina use the library verifier plus an omniscient algebraic check (semi-independent)", "message hashing uses the Go standard library hash functions"},
-		Real: []string{"pkg/mpc/signatures (lindell22, dkls23 bbot/softspoken, lindell17, boldyreva02, cggmp21 as listed in per_workload)", "pkg/mpc/session, dkg, sharing, zero", "pkg/ot, pkg/mpc/rvole", "pkg/network router, echo, exchange", "pkg/signatures verifiers", "curves, fields, proofs, commitments"},
-		Stub: commonStub, ExpectedProbes: []string{"dup", "redeliver", "inject", "quorum_minimal", "quorum_non_minimal", "quorum_all_holders", "non_cosigning_aggregator", "concurrent_signing_sessions", "non_ideal_structure", "keysource_gennaro", "keysource_canetti", "keysource_dealer", "independent_verifications"},
+		Real: []string{"pkg/mpc/signatures: schnorr/lindell22 (BIP-340, plain Schnorr), ecdsa/dkls23 (bbot, softspoken), ecdsa/lindell17 (signing, trusted dealer, DKG), bls/boldyreva02 (short and long keys, three rogue-key schemes) as listed in per_workload", "pkg/encryption/paillier, pkg/proofs/paillier (lp, lpdl, range) through Lindell17", "pkg/mpc/session, dkg, sharing, zero", "pkg/ot, pkg/mpc/rvole", "pkg/network router, echo, exchange", "pkg/signatures verifiers", "curves, fields, proofs, commitments"},
+		Stub: commonStub, ExpectedProbes: []string{"dup", "redeliver", "inject", "quorum_minimal", "quorum_non_minimal", "quorum_all_holders", "non_cosigning_aggregator", "concurrent_signing_sessions", "non_ideal_structure", "keysource_gennaro", "keysource_canetti", "keysource_dealer", "independent_verifications", "semi_independent_verifications", "omniscient_checks", "signing_context_from_subcontext", "lindell17_dkg_completed"},
 		QuickBudgetS: 300, ThoroughBudgetS: 2700,
 	}
 }
@@ -115,9 +115,9 @@ func init() {
 func init() {
 	propMeta["C07"] = Meta{
 		Level: "exploration",
-		Rule: "Each evaluation is one paired replay: a protocol scenario (session setup, Gennaro, Canetti, Lindell22/BIP-340 signing, DKLs23 with either multiplier; real runners, FIFO schedule, parallel second session) is executed twice or more from the same seed with exactly one controlled difference on the randomness seam of one party position: (sensitivity) another protocol-stage stream for that party, the session stage unchanged; (hidden-source) the same party streams and another process-global crypto/rand; (short-read) the same bytes handed out in reads of 1-5 bytes; (reader-failure) the k-th Read call fails, k spread over the calls of the base run; (cross-session) the two sessions of one run compared. Non-trivial: every pair. Distinct = scenario x sub-check x party position.",
+		Rule: "Each evaluation is one paired replay: a protocol scenario (session setup, Gennaro, Canetti, Lindell22/BIP-340 signing, DKLs23 with either multiplier; real runners, FIFO schedule, parallel second session) is executed twice or more from the same seed with exactly one controlled difference on the randomness seam of one party position: (sensitivity) another protocol-stage stream for that party, the session stage unchanged; (hidden-source) the same party streams and another process-global crypto/rand; (short-read) the same bytes handed out in reads of 1-5 bytes; (reader-failure) the k-th Read call fails, k spread over the calls of the base run; (cross-session) the two sessions of one run compared. The Lindell17 trusted dealer is paired the same way on the dealt shards (ECDSA shares and Paillier moduli). Non-trivial: every pair. Distinct = scenario x sub-check x party position.",
 		Assumptions: []string{"a byte-string leaf of at least 16 bytes in a message of the varied party must change when that party's stream changes, unless it is listed as derived with a justification (session id echoed by Canetti, identity entry of a zero-sharing vector, DKLs23 public-key share)", "secrets that never influence a message or output (e.g. an unused mask) are invisible to this check"},
-		Real: []string{"pkg/mpc/session, dkg/gennaro, dkg/canetti, signatures/schnorr/lindell22, signatures/ecdsa/dkls23 (bbot, softspoken), pkg/ot, pkg/mpc/rvole, commitments, proofs"},
+		Real: []string{"pkg/mpc/session, dkg/gennaro, dkg/canetti, signatures/schnorr/lindell22, signatures/ecdsa/dkls23 (bbot, softspoken), pkg/ot, pkg/mpc/rvole, commitments, proofs", "signatures/ecdsa/lindell17/keygen/trusted_dealer, pkg/encryption/paillier key generation, pkg/base/nt prime generation"},
 		Stub: append(append([]string{}, commonStub...), "process-global crypto/rand (testing/cryptotest.SetGlobalRandom)"),
 		ExpectedProbes: []string{"random_leaves_changed", "joint_value_changed", "hidden_source_pairs_identical", "short_read_pairs_identical", "reader_failures_injected", "cross_session_values_distinct"},
 		QuickBudgetS: 300, ThoroughBudgetS: 1800,
